@@ -91,6 +91,11 @@ CHECKS = {
             "Generated files x sort flag x flag subset x --heu x --counter are run through the binary built from the current tree in all three --lib modes; stdout is parsed into sections and compared with the definitional answers; malformed files must fail without output. Open findings K1/K2 are matched by exact signature.",
             "Labels without whitespace (output lines are tokenised at blanks); n<=5.",
             "DESIGN.md §6 C15"),
+    "C12": ("exploration",
+            "differential property-based testing (proptest) across 12 builds of the same executor, each self-checked against the oracles",
+            "Every generated case is executed by probe binaries compiled against the library under all 12 feature combinations; each probe checks its answers against shadow model / definitional oracle and emits a canonical transcript that must equal the default build's (documented exception excluded).",
+            "Only the library's feature matrix; transcripts are handle-free (semantic) so that harmless renumbering is not reported.",
+            "DESIGN.md §6 C12"),
 }
 
 PENDING = {}
